@@ -29,6 +29,10 @@ SummaryBad(r) == \/ r.op = "build" /\ "summary" \in DOMAIN r /\ ~SummaryOk(r.sum
 Judge(r) ==
   LET ok == ~("panic" \in DOMAIN r) /\ OpOk(r, Target(r)) /\ ExistsOk(r)
             /\ (Mode = "c09" /\ "regs" \in DOMAIN r => RegsOk(r.regs))
+            \* creating the Dispatch offers every callsite the process already knows to every layer of the new stack - whatever
+            \* other collectors are alive (the harness registered the whole pool beforehand; summary.cs lists it)
+            /\ (Mode = "c09" /\ r.op = "build" /\ "log_reg" \in DOMAIN r /\ r.log_reg /\ flat.layers # << >> =>
+                   \A i \in DOMAIN r.summary.cs : \E j \in DOMAIN r.regs : r.regs[j].m = r.summary.cs[i].m)
       \* F3 needs an emission for which the collector ran NO `enabled` pass (cached interest `always`): a pass rewrites every bit
       isf3 == ~ok /\ ~("panic" \in DOMAIN r) /\ ExistsOk(r) /\ StaleOnly(r) /\ ~r.pass
   IN /\ Effect(r)
